@@ -109,7 +109,7 @@ class _TextCueParser:
       self.parent = span
       return
 
-    if tag.startswith("rt"):
+    if tag.startswith("rt") and self.ruby_rtc is not None:
       span = model.Rt(self.parent.get_doc())
       self.ruby_rtc.push_child(span)
       self.parent = span
@@ -160,6 +160,10 @@ class _TextCueParser:
       return
 
   def _handle_endtag(self, _token: EndTagToken):
+
+    if isinstance(self.parent, model.P):
+      LOGGER.warning("Unmatched end tag at line %s", self.line_num)
+      return
 
     if isinstance(self.parent, model.Ruby):
       self.ruby_rbc = None
@@ -457,6 +461,9 @@ def to_model(data_file: typing.IO, _config = None, progress_callback=lambda _: N
   for line_index, line in enumerate(_none_terminated(lines)):
 
     if state is _State.START:
+      if line is None:
+        break
+
       if not line.startswith("WEBVTT"):
         LOGGER.warning("The first line of the file does not start with WEBVTT")
       state = _State.LOOKING
